@@ -225,7 +225,7 @@ def gen_library_history(rng, schema, n_ops, rich_tracks=2, hostile=False):
             push(FO.gen_track_create(rng, st, rich=rng.random() < 0.5))
         elif r < 0.74 and lt:
             # rows in the tables only Engine DJ writes (prepare list, history, copy records) that name one of the tracks
-            push(({"op": "foreign_rows", "t": rng.choice(lt)}, {"kind": "foreign_rows"}))
+            push(({"op": "foreign_rows", "t": rng.choice(lt), "list_id": rng.choice([1, 1, 2, 3, 4, 5])}, {"kind": "foreign_rows"}))
         elif r < 0.755 and lt:
             push(({"op": "foreign_flags", "t": rng.choice(lt), "pick": rng.choice([-1, 1, rng.randrange(1, 2048)])}, {"kind": "foreign_rows"}))
         elif r < 0.78 and schema.startswith("2."):
